@@ -1066,7 +1066,7 @@ func Prop() *core.Prop {
 		},
 		Cases: func(tier string) int {
 			if tier == "thorough" {
-				return len(forced)*2 + 2000
+				return len(forced)*2 + 30000
 			}
 			return len(forced)*2 + 70
 		},
